@@ -325,3 +325,71 @@ func vfH_C09_time(tier int) {
 	vfAssert(vfDeepEqual(again, red), "C09/time/reduce-is-idempotent")
 	vfReach("C09_time/ok")
 }
+
+// time strings under a clock with a time zone: a timestamp written without an offset is read in the
+// valuer's zone, on whichever side of the operator it stands; one written with an offset is not moved
+func vfH_C09_zone(tier int) {
+	const off = 8 * 3600 * int64(1000000000) // the zone is UTC-8: local midnight is 08:00 UTC
+	now := vfInt64()
+	vfAssume(now >= -(1 << 61))
+	vfAssume(now <= 1<<61)
+	d := vfInt64()
+	vfAssume(d >= -(1 << 60))
+	vfAssume(d <= 1<<60)
+	valuer := &NowValuer{Now: time.Unix(0, now), Location: time.FixedZone("UTC-8", -8*3600)}
+	written := []struct {
+		s  string
+		ns int64
+	}{
+		{"2000-01-01 00:00:00", 946684800000000000 + off},
+		{"2000-01-01", 946684800000000000 + off},
+		{"2000-01-01T00:00:00Z", 946684800000000000},
+		{"2000-01-01T00:00:00-03:00", 946684800000000000 + 3*3600*1000000000},
+	}
+	w := written[vfChoice(len(written))]
+	ts := &StringLiteral{Val: w.s}
+	dl := &DurationLiteral{Val: time.Duration(d)}
+	nowCall := &Call{Name: "now"}
+	left := vfChoice(2) == 0 // the string on the left or on the right
+	bin := func(op Token, a, b Expr) Expr {
+		if left {
+			return &BinaryExpr{Op: op, LHS: a, RHS: b}
+		}
+		return &BinaryExpr{Op: op, LHS: b, RHS: a}
+	}
+	switch vfChoice(3) {
+	case 0: // timestamp + duration, either order
+		red := Reduce(bin(ADD, ts, dl), valuer)
+		lit, ok := red.(*TimeLiteral)
+		vfAssert(ok, "C09/zone/timestamp-plus-duration-folds-to-an-instant")
+		if ok {
+			vfAssert(lit.Val.UnixNano() == w.ns+d, "C09/zone/timestamp-plus-duration-is-the-exact-instant")
+		}
+	case 1: // difference with now(), either order
+		red := Reduce(bin(SUB, ts, nowCall), valuer)
+		lit, ok := red.(*DurationLiteral)
+		vfAssert(ok, "C09/zone/timestamp-difference-folds-to-a-duration")
+		if ok {
+			want := w.ns - now
+			if !left {
+				want = now - w.ns
+			}
+			vfAssert(int64(lit.Val) == want, "C09/zone/timestamp-difference-is-exact")
+		}
+	default: // comparison with now() - d, either order
+		t := Token(vfInt())
+		vfAssume(vfOr(vfOr(t == EQ, t == NEQ), vfOr(vfOr(t == LT, t == LTE), vfOr(t == GT, t == GTE))))
+		shifted := &ParenExpr{Expr: &BinaryExpr{Op: SUB, LHS: nowCall, RHS: dl}}
+		red := Reduce(bin(t, ts, shifted), valuer)
+		lit, ok := red.(*BooleanLiteral)
+		vfAssert(ok, "C09/zone/timestamp-comparison-folds-to-a-truth-value")
+		if ok {
+			a, b := w.ns, now-d
+			if !left {
+				a, b = b, a
+			}
+			vfAssert(lit.Val == c09CmpTruth(t, a, b), "C09/zone/timestamp-comparison-is-exact")
+		}
+	}
+	vfReach("C09_zone/ok")
+}
